@@ -34,6 +34,9 @@
 (*   step {cache, store, gated}   global quiescence: Peek of every facade,   *)
 (*                                ids waiting at a gate (none: every worker  *)
 (*                                is idle, every abandoned operation done)   *)
+(*   life {what}                  Start / Stop of the group returned.  Calls  *)
+(*                                made before Start wait in the queues; calls *)
+(*                                accepted before Stop are still applied      *)
 (*   end {}                       everything released and settled            *)
 EXTENDS Integers, Sequences, FiniteSets, TLC, Json, IOUtils, MuxStore
 
@@ -69,6 +72,7 @@ TraceInit ==
   /\ open = <<>> /\ cursor = <<>> /\ seen = <<>>
 
 TReset(e) ==
+  /\ e.gmux = e.emux /\ e.gdeep = e.edeep            \* MuxSize() / DeepSize() say what was configured
   /\ serial' = e.serial
   /\ store' = [k \in 1..e.nk |-> 0] /\ base' = [k \in 1..e.nk |-> 0]
   /\ open' = [k \in 1..e.nk |-> 0] /\ cursor' = [k \in 1..e.nk |-> 0]
@@ -80,6 +84,7 @@ TSub(e) ==
        /\ tops' = Append([i \in 1..Len(tops) |->
                             IF i \in PendK(e.k) THEN [tops[i] EXCEPT !.solo = FALSE] ELSE tops[i]],
                          [op |-> e.op, k |-> e.k, d |-> e.d, n |-> 0, m |-> 0, solo |-> quiet, lr |-> 0,
+                          sv |-> IF quiet THEN {store[e.k]} ELSE {store[e.k], base[e.k]},     \* values of the key a reader may meet during the call
                           cached |-> (Live = {} /\ seen # <<>> /\ seen[e.k] # <<>>), rej |-> FALSE])
        /\ base' = IF quiet THEN [base EXCEPT ![e.k] = store[e.k]] ELSE base
   /\ pend' = pend \cup {e.id}
@@ -111,8 +116,11 @@ TSce(e) ==
        /\ e.r = res.r
        /\ store' = [store EXCEPT ![e.k] = res.st]
        /\ (e.fn \in Mutators /\ res.r.ok) => tops[e.id].m = 0        \* an operation is applied at most once
-       /\ tops' = [tops EXCEPT ![e.id].n = @ + 1, ![e.id].lr = res.r.v,
-                                ![e.id].m = IF e.fn \in Mutators /\ res.r.ok THEN 1 ELSE @]
+       /\ tops' = [i \in 1..Len(tops) |->
+                     LET t == IF i \in Live /\ tops[i].k = e.k THEN [tops[i] EXCEPT !.sv = @ \cup {res.st}] ELSE tops[i]
+                     IN IF i = e.id THEN [t EXCEPT !.n = @ + 1, !.lr = res.r.v,
+                                                   !.m = IF e.fn \in Mutators /\ res.r.ok THEN 1 ELSE @]
+                        ELSE t]
   /\ open' = [open EXCEPT ![e.k] = 0]
   /\ seen' = <<>>
   /\ UNCHANGED <<serial, base, pend, aband, cursor>>
@@ -132,9 +140,11 @@ TRet(e) ==
          r == e.r
      IN /\ IF r.ok THEN r.e = "" ELSE (r.e \in Errs /\ r.v = 0)
         /\ r.e \in {"qfull", "closed", "dup"} => o.n = 0               \* rejected: store untouched
-        /\ (o.op = "add" /\ o.cached /\ r.e # "canceled") => r.e = "dup"                   \* add on a cached key
+        /\ (o.op = "add" /\ o.cached /\ r.e \notin {"canceled", "qfull", "closed"}) => r.e = "dup"                   \* add on a cached key
         /\ (o.solo /\ r.e = "dup") => store[o.k] # 0                    \* duplicate: cached, hence stored
         /\ (o.solo /\ r.ok /\ o.op \in {"add", "upd", "uoa", "utl", "utr"}) => store[o.k] = o.d   \* applied
+        /\ (r.ok /\ o.op # "del") =>          \* also under overlap: a value the key had during the call
+              (r.v # 0 /\ (r.v \in o.sv \/ (o.n > 0 /\ r.v = o.lr)))
         /\ (o.solo /\ r.ok /\ o.op # "del") =>
               (r.v # 0 /\ (r.v = store[o.k] \/ (o.n > 0 /\ r.v = o.lr)))
         /\ (o.solo /\ r.ok /\ o.op = "del") => (r.v = 0 /\ store[o.k] = 0 /\ o.n > 0)
@@ -148,11 +158,16 @@ TRet(e) ==
 TStep(e) ==
   /\ e.store = store
   /\ \A k \in 1..NK : \A i \in 1..Len(e.cache[k]) : CacheOK(k, e.cache[k][i], store, base, Live)
-  /\ e.gated = <<>> =>                 \* every worker idle: an abandoned operation was applied, not dropped
+  /\ (e.gated = <<>> /\ e.running) =>   \* every worker idle: an abandoned operation was applied, not dropped
         \A i \in aband : tops[i].op \notin {"add", "get"} => tops[i].n > 0
-  /\ aband' = IF e.gated = <<>> THEN {} ELSE aband
+  /\ aband' = IF e.gated = <<>> /\ e.running THEN {} ELSE aband
   /\ seen' = IF Live = {} THEN e.cache ELSE <<>>
   /\ UNCHANGED <<serial, store, base, tops, pend, open, cursor>>
+
+TLife(e) ==
+  /\ e.what \in {"start", "stop"}
+  /\ seen' = <<>>
+  /\ UNCHANGED <<serial, store, base, tops, pend, aband, open, cursor>>
 
 TEnd(e) ==
   /\ pend = {} /\ aband = {} /\ \A k \in 1..NK : open[k] = 0
@@ -170,6 +185,7 @@ TraceNext ==
          [] e.ev = "cdel"  -> TCdel(e)
          [] e.ev = "ret"   -> TRet(e)
          [] e.ev = "step"  -> TStep(e)
+         [] e.ev = "life"  -> TLife(e)
          [] e.ev = "end"   -> TEnd(e)
          [] OTHER -> FALSE
 
